@@ -90,7 +90,7 @@ def run(tier):
                 chk.violation(f"threads run {k} ({label}) seed={vlib.seed() * 100 + k}: {what}: "
                               f"{p.stdout[-600:]} {p.stderr[-1800:]}")
             else:
-                kv = dict(x.split("=") for x in summ[0].split()[1:])
+                kv = vlib.kvs(summ[0])
                 ops += int(kv["ops"]) + int(kv["shared_reads"]) + int(kv["cases"])
                 chk.cov["traces_validated_against_impl"] += nthreads
     for st in streams:
